@@ -35,11 +35,11 @@ def cases(tier, seed):
     rng = np.random.default_rng([seed, 1313])
     n_single, n_mesh = (330, 30) if tier == "quick" else (40000, 2500)
     for i in range(n_single):
-        yield {"kind": "single", "k": int(rng.integers(3, 9)), "radius": float(10 ** rng.uniform(-0.3, math.log10(60))),
+        yield {"kind": "single", "k": int(rng.integers(3, 9)), "radius": float(10 ** rng.uniform(-0.3 if i % 4 else -3.0, math.log10(60))),
                "fseed": int(rng.integers(0, 10**6)), "placement": gen.FACE_PLACEMENTS[i % len(gen.FACE_PLACEMENTS)],
                "pseed": int(rng.integers(0, 10**6))}
     for i in range(n_mesh):
-        yield {"kind": "mesh", "mesh": gen.random_mesh(rng, 60 if tier == "quick" else 250, families=["voronoi", "merged", "cubed_sphere", "latlon_patch", "polyhedron"])}
+        yield {"kind": "mesh", "mesh": gen.random_mesh(rng, 60 if tier == "quick" else 250, families=["voronoi", "merged", "cubed_sphere", "latlon_patch", "polyhedron", "fine_patch"])}
 
 
 # ---------------------------------------------------------------- oracle
